@@ -73,6 +73,7 @@ def thorough_cfgs():
         out.append(cfg(cc, '-O2', 'c++2b'))
         out.append(cfg(cc, '-Os'))
         out.append(cfg(cc, '-O2', 'gnu++17'))
+        out.append(cfg(cc, '-O0', 'gnu++17', extra=['-DVERIF_UMBRELLA=1'], tag=f"{'gcc' if cc == 'g++' else 'clang'}-O0-gnu++17-umbrella"))
         out.append(cfg(cc, '-O3', 'c++17', extra=['-march=native'], tag=f"{'gcc' if cc == 'g++' else 'clang'}-O3-c++17-native"))
         out.append(cfg(cc, '-O1', 'c++20', extra=FORCE_CE, tag=f"{'gcc' if cc == 'g++' else 'clang'}-O1-c++20-ce"))
         out.append(cfg(cc, '-O1', 'gnu++20', extra=['-funsigned-char'], tag=f"{'gcc' if cc == 'g++' else 'clang'}-O1-gnu++20-uchar"))
